@@ -148,6 +148,25 @@ def walk_no_nested(root, include_lambda=False):
         yield from rec(r)
 
 
+def clone(node):
+    """copy of a syntax tree (fields only: parent/module links are not
+    followed, unlike copy.deepcopy)"""
+    if isinstance(node, list):
+        return [clone(n) for n in node]
+    if not isinstance(node, ast.AST):
+        return node
+    new = type(node)()
+    for f in node._fields:
+        if hasattr(node, f):
+            setattr(new, f, clone(getattr(node, f)))
+    for a in ("lineno", "col_offset", "end_lineno", "end_col_offset"):
+        if hasattr(node, a):
+            setattr(new, a, getattr(node, a))
+    if hasattr(node, "_module"):
+        new._module = node._module
+    return new
+
+
 def names_in(node):
     return {n.id for n in ast.walk(node) if isinstance(n, ast.Name)}
 
